@@ -267,6 +267,9 @@ func (e *FieldExpr) Modelled() bool {
 type FieldDef struct {
 	Name string     `json:"name"`
 	E    *FieldExpr `json:"e"`
+	// Since: the field reflects only points whose acceptance sequence number
+	// (per table) is >= Since (fields added by an alteration).
+	Since int `json:"since,omitempty"`
 }
 
 // TableDef describes a table or view.
